@@ -293,6 +293,12 @@ func writeEvidence(c *Ctx, p *propDef, tier string, seed int, wall float64, nVio
 		o := cands[(i*7+seed)%len(cands)]
 		samples = append(samples, o)
 	}
+	if c.exempts == nil {
+		c.exempts = []string{}
+	}
+	if c.notes == nil {
+		c.notes = []string{}
+	}
 	fnSet := map[string]bool{}
 	for _, o := range c.Obls {
 		fnSet[o.Func] = true
